@@ -15,6 +15,9 @@ HOSTILE_VALUES = [
     b'mbcs', b'oem', b'utf_8_sig', b'U8', b'latin1', b'big5', b'quopri',
     b'uu', b'bz2', b'string_escape', b'charmap', b'unicode_internal',
     b'palmos', b'-0', b'+1', b'1e400', b'nan', b'inf',
+    # all-digit spellings that Python accepts as codec aliases
+    b'437', b'850', b'1252', b'8859', b'936', b'1140', b'037', b'500',
+    b'1250', b'866', b'950', b'949', b'932', b'65001',
 ]
 KNOWN_KEYS = [b'length', b'indent', b'encoding', b'line_endings', b'format',
               b'version', b'type', b'mimetype']
